@@ -33,6 +33,10 @@ func genEBP(r *gen.Rand, cable bool, flags byte) ref.EBP {
 	n := 1
 	if cable {
 		n = 1 + r.Intn(8)
+		if r.Chance(10) {
+			// a long multi-byte chain (nothing bounds it but the length byte)
+			n = r.PickInt([]int{15, 16, 17, 18, 31, 32, 33, 64, 100, 200})
+		}
 	}
 	for i := 0; i < n; i++ {
 		g := r.Byte()
@@ -50,6 +54,9 @@ func genEBP(r *gen.Rand, cable bool, flags byte) ref.EBP {
 		e.Reserved = r.Bytes(1 + r.Intn(4))
 	default:
 		e.Reserved = r.Bytes(r.Intn(150))
+		if n > 60 {
+			e.Reserved = r.Bytes(r.Intn(20))
+		}
 	}
 	if r.Chance(12) {
 		// a reserved tail that brings the body to the largest lengths the 8-bit length byte can announce
